@@ -100,7 +100,32 @@ pub fn execute_full(sc: &Scenario, corpus: &mut Corpus, armed: Armed, opts: &Exe
             }
         }
     }
-    execute(sc, corpus, armed, opts)
+    match sc.repeat {
+        None => execute(sc, corpus, armed, opts),
+        Some(n) => {
+            // a violation that is itself nondeterministic: up to n executions, the first one that shows
+            // a violation is returned; executions that differ from one another are a violation as well
+            let mut first: Option<(u64, u64)> = None;
+            let mut last = None;
+            for k in 0..n.max(1) {
+                let mut out = execute(sc, corpus, armed, opts);
+                let d = (out.sched_digest, out.result_digest);
+                if let Some(f) = first {
+                    if f != d && armed.c15 {
+                        out.violations.push(world::Violation { oracle: "C15.result_nondeterminism".into(), sig: "history-differs-between-two-executions".into(), detail: format!("execution {} of the same scenario in this process produced a different history from execution 1", k + 1) });
+                    }
+                } else {
+                    first = Some(d);
+                }
+                let stop = out.violations.iter().any(|v| !v.oracle.starts_with("HARNESS"));
+                last = Some(out);
+                if stop {
+                    break;
+                }
+            }
+            last.unwrap()
+        }
+    }
 }
 
 /// Evaluate a scenario in a fresh child process; returns the oracle ids it violates there.
@@ -159,6 +184,7 @@ struct Agg {
     found: Vec<(String, String, String, String)>,
     samples: Vec<String>,
     state_dependent_tries: u32,
+    nondet_tries: u32,
 }
 
 fn write_u64s(path: &str, v: &[u64]) {
@@ -326,6 +352,18 @@ fn cmd_run(args: &[String]) -> i32 {
                     fin = Some(with);
                 }
             }
+            if fin.is_none() && armed.c15 && agg.nondet_tries < 4 {
+                // not reproducible by a single execution in a fresh process, with or without what ran before:
+                // the violation may itself be nondeterministic (a randomised hash seed, an address): repeat
+                agg.nondet_tries += 1;
+                let mut with = sc.clone();
+                with.repeat = Some(32);
+                if reproduces(&with) {
+                    let mut sh = shrink::Shrinker { corpus: &mut corpus, armed, opts: ExecOpts { log_events: false, cold, exe: exe.clone() }, oracle: v.oracle.clone(), budget: 200, deadline: Instant::now() + Duration::from_secs(20), runs: 0, child_exe: Some(exe.clone()) };
+                    let small = sh.shrink(&with);
+                    fin = Some(if reproduces(&small) { small } else { with });
+                }
+            }
             match fin {
                 Some(fin) => {
                     let det = match child_detail(&exe, &fin, &v.oracle) {
@@ -478,7 +516,7 @@ fn main() {
     // a single request above 64 MiB + 16 x (largest input, < 1 MiB) is refused => recorded abort
     alloc::set_cap(64 * 1024 * 1024 + 16 * (1 << 20));
     tz::verif_hooks::set_clock(world::sim_clock);
-    for k in ["TZ", "TZDIR", "LANG", "LC_ALL", "LC_TIME"] {
+    for k in ["TZ", "TZDIR", "LANG", "LC_ALL", "LC_TIME"].iter().chain(exec::DECOY_VARS.iter()) {
         std::env::remove_var(k);
     }
     let code = match args[0].as_str() {
